@@ -23,38 +23,71 @@ Section Props.
   Lemma skipn_snoc (k : nat) (l : list E) x : k <= length l -> skipn k (l ++ [x]) = skipn k l ++ [x].
   Proof. intros H. rewrite skipn_app. replace (k - length l) with 0 by lia. reflexivity. Qed.
 
+  (* what the publisher has published as far as a subscription is concerned:
+     everything, or everything up to the moment the subscription was closed *)
+  Definition visible (seen : list E) (s : sub) : list E :=
+    match s_closed s with None => seen | Some k => firstn k seen end.
+
   (* the invariant of one subscription w.r.t. what its publisher has published *)
   Definition edge_inv (seen : list E) (s : sub) : Prop :=
-    s_from s <= length seen /\
+    (forall k, s_closed s = Some k -> k <= length seen) /\
+    s_from s <= length (visible seen s) /\
     length (s_queue s) <= s_cap s /\
-    subseq (s_passed s ++ s_queue s) (skipn (s_from s) seen) /\
-    (s_drops s = 0 -> s_passed s ++ s_queue s = skipn (s_from s) seen).
+    subseq (s_passed s ++ s_queue s) (skipn (s_from s) (visible seen s)) /\
+    (s_drops s = 0 -> s_passed s ++ s_queue s = skipn (s_from s) (visible seen s)).
+
+  Lemma firstn_app_le (k : nat) (l : list E) x : k <= length l -> firstn k (l ++ [x]) = firstn k l.
+  Proof. intros H. rewrite firstn_app. replace (k - length l) with 0 by lia. simpl. apply app_nil_r. Qed.
 
   Lemma edge_inv_push seen s e : edge_inv seen s -> edge_inv (seen ++ [e]) (push e s).
   Proof.
-    intros [Hf [Hc [Hs Hd]]]. unfold push.
-    destruct (Nat.ltb_spec (length (s_queue s)) (s_cap s)) as [Hlt|Hge]; unfold edge_inv; simpl.
-    - repeat split.
-      + rewrite app_length. simpl. lia.
-      + rewrite app_length. simpl. lia.
-      + rewrite skipn_snoc by exact Hf. rewrite app_assoc. apply subseq_snoc, Hs.
-      + intros H0. rewrite skipn_snoc by exact Hf. rewrite app_assoc, (Hd H0). reflexivity.
-    - repeat split.
-      + rewrite app_length. simpl. lia.
-      + exact Hc.
-      + rewrite skipn_snoc by exact Hf. apply subseq_app_r, Hs.
-      + intros H0. discriminate.
+    intros [Hk [Hf [Hc [Hs Hd]]]]. unfold push, visible in *.
+    destruct (s_closed s) as [k|] eqn:Hcl.
+    - (* closed: nothing changes, and what it may see does not grow *)
+      assert (Hkl : k <= length seen) by (apply Hk; reflexivity).
+      unfold edge_inv, visible. rewrite Hcl. rewrite firstn_app_le by exact Hkl.
+      repeat split; try assumption. intros k' [= <-]. rewrite app_length. simpl. lia.
+    - destruct (Nat.ltb_spec (length (s_queue s)) (s_cap s)) as [Hlt|Hge]; unfold edge_inv, visible; simpl.
+      + repeat split.
+        * intros k [=].
+        * rewrite app_length. simpl. lia.
+        * rewrite app_length. simpl. lia.
+        * rewrite skipn_snoc by exact Hf. rewrite app_assoc. apply subseq_snoc, Hs.
+        * intros H0. rewrite skipn_snoc by exact Hf. rewrite app_assoc, (Hd H0). reflexivity.
+      + repeat split.
+        * intros k [=].
+        * rewrite app_length. simpl. lia.
+        * exact Hc.
+        * rewrite skipn_snoc by exact Hf. apply subseq_app_r, Hs.
+        * intros H0. discriminate.
   Qed.
 
   Lemma edge_inv_pop seen s e s' : edge_inv seen s -> pop s = Some (e, s') -> edge_inv seen s'.
   Proof.
-    intros [Hf [Hc [Hs Hd]]] Hp. unfold pop in Hp.
+    intros [Hk [Hf [Hc [Hs Hd]]]] Hp. unfold pop in Hp.
     destruct (s_queue s) as [|x q] eqn:Hq; [discriminate|]. injection Hp as <- <-.
-    unfold edge_inv; simpl. repeat split.
+    unfold edge_inv, visible in *; simpl. repeat split.
+    - exact Hk.
     - exact Hf.
     - simpl in Hc. lia.
     - rewrite <- app_assoc. exact Hs.
     - intros H0. rewrite <- app_assoc. apply Hd, H0.
+  Qed.
+
+  Lemma edge_inv_close seen s : edge_inv seen s -> edge_inv seen (close_sub (length seen) s).
+  Proof.
+    intros H. unfold close_sub. destruct (s_closed s) as [k|] eqn:Hcl; [exact H|].
+    destruct H as [Hk [Hf [Hc [Hs Hd]]]]. unfold edge_inv, visible in *. rewrite Hcl in *. simpl.
+    rewrite firstn_all. repeat split; try assumption. intros k [= <-]. lia.
+  Qed.
+
+  Lemma close_nth_inv seen : forall i l, Forall (edge_inv seen) l -> Forall (edge_inv seen) (close_nth E (length seen) i l).
+  Proof.
+    induction i as [|i IH]; intros l H; destruct l as [|s l]; simpl; try constructor.
+    - inversion H; subst. apply edge_inv_close. assumption.
+    - inversion H; subst; assumption.
+    - inversion H; subst; assumption.
+    - inversion H; subst. apply IH. assumption.
   Qed.
 
   Definition pub_inv (p : pub) : Prop := Forall (edge_inv (p_seen p)) (p_subs p).
@@ -71,14 +104,16 @@ Section Props.
 
   Lemma pub_inv_step p a : pub_inv p -> pub_inv (pstep p a).
   Proof.
-    intros H. destruct a as [e|cap|i]; unfold pub_inv in *; simpl.
+    intros H. destruct a as [e|cap|i|i]; unfold pub_inv in *; simpl.
     - rewrite Forall_forall in *. intros s Hs. apply in_map_iff in Hs. destruct Hs as [s0 [<- Hin]].
       apply edge_inv_push, H, Hin.
     - apply Forall_app. split; [exact H|]. constructor; [|constructor].
-      unfold edge_inv; simpl. repeat split; try lia.
+      unfold edge_inv, visible; simpl. repeat split; try lia.
+      + intros k [=].
       + rewrite skipn_all. constructor.
       + intros _. rewrite skipn_all. reflexivity.
     - apply read_nth_inv, H.
+    - apply close_nth_inv, H.
   Qed.
 
   (* C05 / C10, one publisher, any number of subscriptions, every sequence of
@@ -93,19 +128,46 @@ Section Props.
   (* no duplicate, omission or reordering while nothing was dropped *)
   Corollary subscriber_sees_exact_suffix (l : list (pact E)) (s : sub) :
     In s (p_subs (prun l)) -> s_drops s = 0 ->
-    s_passed s ++ s_queue s = expected_suffix (s_from s) (p_seen (prun l)).
+    s_passed s ++ s_queue s = expected_suffix (s_from s) (visible (p_seen (prun l)) s).
   Proof.
     intros Hin Hd. pose proof (edge_invariant l) as H. unfold pub_inv in H. rewrite Forall_forall in H.
-    destruct (H s Hin) as [_ [_ [_ Heq]]]. apply Heq, Hd.
+    destruct (H s Hin) as [_ [_ [_ [_ Heq]]]]. apply Heq, Hd.
   Qed.
+
+  (* an open subscription: everything published since it was created *)
+  Corollary open_subscriber_sees_exact_suffix (l : list (pact E)) (s : sub) :
+    In s (p_subs (prun l)) -> s_drops s = 0 -> s_closed s = None ->
+    s_passed s ++ s_queue s = expected_suffix (s_from s) (p_seen (prun l)).
+  Proof.
+    intros Hin Hd Ho. rewrite (subscriber_sees_exact_suffix l s Hin Hd). unfold visible. rewrite Ho. reflexivity.
+  Qed.
+
+  (* C05 / C11: closing one subscription changes nothing for the others, and
+     the fan-out of later events still reaches every open one *)
+  Theorem close_is_local (p : pub) i j d : i <> j ->
+    nth j (p_subs (pclose i p)) d = nth j (p_subs p) d.
+  Proof.
+    unfold pclose; simpl. generalize (length (p_seen p)) as k. intros k. revert i j.
+    induction (p_subs p) as [|s l IH]; intros i j Hne; destruct i, j; simpl; try reflexivity; try congruence.
+    apply IH. congruence.
+  Qed.
+
+  Theorem publish_reaches_open_past_closed e (s : sub) :
+    s_closed s = None -> length (s_queue s) < s_cap s -> s_queue (push e s) = s_queue s ++ [e].
+  Proof.
+    intros Ho Hlt. unfold push. rewrite Ho. destruct (Nat.ltb_spec (length (s_queue s)) (s_cap s)); [reflexivity|lia].
+  Qed.
+
+  Theorem publish_to_closed_is_noop e (s : sub) k : s_closed s = Some k -> push e s = s.
+  Proof. intros H. unfold push. rewrite H. reflexivity. Qed.
 
   (* C10: whatever was dropped, what a consumer receives is an in-order
      subsequence of what was published to it *)
   Corollary stalled_receives_subsequence (l : list (pact E)) (s : sub) :
-    In s (p_subs (prun l)) -> subseq (s_passed s ++ s_queue s) (expected_suffix (s_from s) (p_seen (prun l))).
+    In s (p_subs (prun l)) -> subseq (s_passed s ++ s_queue s) (expected_suffix (s_from s) (visible (p_seen (prun l)) s)).
   Proof.
     intros Hin. pose proof (edge_invariant l) as H. unfold pub_inv in H. rewrite Forall_forall in H.
-    destruct (H s Hin) as [_ [_ [Hs _]]]. exact Hs.
+    destruct (H s Hin) as [_ [_ [_ [Hs _]]]]. exact Hs.
   Qed.
 
   (* C10: a slow consumer is isolated — publishing treats every subscription
@@ -124,19 +186,23 @@ Section Props.
   Theorem push_full_drops_newest e (s : sub) :
     length (s_queue s) >= s_cap s -> s_queue (push e s) = s_queue s /\ s_passed (push e s) = s_passed s.
   Proof.
-    intros H. unfold push. destruct (Nat.ltb_spec (length (s_queue s)) (s_cap s)); [lia|]. split; reflexivity.
+    intros H. unfold push. destruct (s_closed s); [split; reflexivity|].
+    destruct (Nat.ltb_spec (length (s_queue s)) (s_cap s)); [lia|]. split; reflexivity.
   Qed.
 
   Theorem push_below_capacity_keeps e (s : sub) :
+    s_closed s = None ->
     length (s_queue s) < s_cap s -> s_queue (push e s) = s_queue s ++ [e] /\ s_drops (push e s) = s_drops s.
   Proof.
-    intros H. unfold push. destruct (Nat.ltb_spec (length (s_queue s)) (s_cap s)); [|lia]. split; reflexivity.
+    intros Ho H. unfold push. rewrite Ho. destruct (Nat.ltb_spec (length (s_queue s)) (s_cap s)); [|lia]. split; reflexivity.
   Qed.
 
   (* a consumer that never reads holds exactly the first cap events published
      after its creation *)
   Definition never_read_inv (seen : list E) (s : sub) : Prop :=
-    s_passed s = [] -> s_from s <= length seen /\ s_queue s = firstn (s_cap s) (skipn (s_from s) seen).
+    s_passed s = [] ->
+    (forall k, s_closed s = Some k -> k <= length seen) /\
+    s_from s <= length (visible seen s) /\ s_queue s = firstn (s_cap s) (skipn (s_from s) (visible seen s)).
 
   Lemma firstn_snoc_lt (c : nat) (l : list E) x : length l < c -> firstn c (l ++ [x]) = firstn c l ++ [x].
   Proof. intros H. rewrite firstn_app. replace (c - length l) with (S (c - length l - 1)) by lia. simpl.
@@ -147,13 +213,27 @@ Section Props.
 
   Lemma never_read_push seen s e : never_read_inv seen s -> never_read_inv (seen ++ [e]) (push e s).
   Proof.
-    unfold never_read_inv, push. intros H.
-    destruct (Nat.ltb_spec (length (s_queue s)) (s_cap s)) as [Hlt|Hge]; simpl; intros Hp;
-      destruct (H Hp) as [Hf Hq]; (split; [rewrite app_length; simpl; lia|]); rewrite skipn_snoc by exact Hf.
-    - rewrite Hq in Hlt. rewrite firstn_length in Hlt.
-      rewrite firstn_snoc_lt by lia. rewrite Hq. reflexivity.
-    - rewrite Hq in Hge. rewrite firstn_length in Hge.
-      rewrite firstn_snoc_ge by lia. exact Hq.
+    unfold never_read_inv, push, visible. intros H.
+    destruct (s_closed s) as [k|] eqn:Hcl.
+    - rewrite Hcl. intros Hp. destruct (H Hp) as [Hk [Hf Hq]].
+      assert (Hkl : k <= length seen) by (apply Hk; reflexivity).
+      rewrite firstn_app_le by exact Hkl. repeat split; try assumption.
+      intros k' [= <-]. rewrite app_length. simpl. lia.
+    - destruct (Nat.ltb_spec (length (s_queue s)) (s_cap s)) as [Hlt|Hge]; simpl; intros Hp;
+        destruct (H Hp) as [_ [Hf Hq]]; (split; [intros k [=]|]); (split; [rewrite app_length; simpl; lia|]);
+        rewrite skipn_snoc by exact Hf.
+      + rewrite Hq in Hlt. rewrite firstn_length in Hlt.
+        rewrite firstn_snoc_lt by lia. rewrite Hq. reflexivity.
+      + rewrite Hq in Hge. rewrite firstn_length in Hge.
+        rewrite firstn_snoc_ge by lia. exact Hq.
+  Qed.
+
+  Lemma never_read_close seen s : never_read_inv seen s -> never_read_inv seen (close_sub (length seen) s).
+  Proof.
+    unfold never_read_inv, close_sub, visible. intros H. destruct (s_closed s) as [k|] eqn:Hcl.
+    - rewrite Hcl. exact H.
+    - simpl. intros Hp. destruct (H Hp) as [_ [Hf Hq]]. rewrite firstn_all.
+      repeat split; try assumption. intros k [= <-]. lia.
   Qed.
 
   Lemma never_read_pop seen s e s' : pop s = Some (e, s') -> never_read_inv seen s'.
@@ -169,15 +249,20 @@ Section Props.
     assert (H : forall p, Forall (never_read_inv (p_seen p)) (p_subs p) ->
                 Forall (never_read_inv (p_seen (fold_left pstep l p))) (p_subs (fold_left pstep l p))).
     { induction l as [|a l IH]; intros p Hp; [exact Hp|]. simpl. apply IH.
-      destruct a as [e|cap|i]; simpl.
+      destruct a as [e|cap|i|i]; simpl.
       - rewrite Forall_forall in *. intros s Hs. apply in_map_iff in Hs. destruct Hs as [s0 [<- Hin]].
         apply never_read_push, Hp, Hin.
       - apply Forall_app. split; [exact Hp|]. constructor; [|constructor].
-        unfold never_read_inv; simpl. intros _. split; [lia|]. rewrite skipn_all. destruct cap; reflexivity.
+        unfold never_read_inv, visible; simpl. intros _. split; [intros k [=]|]. split; [lia|]. rewrite skipn_all. destruct cap; reflexivity.
       - clear IH. revert i. induction (p_subs p) as [|s l0 IH0]; intros i; destruct i; simpl; try constructor.
         + inversion Hp; subst. destruct (pop s) as [[e s']|] eqn:Hpop.
           * constructor; [eapply never_read_pop; eassumption | assumption].
           * constructor; assumption.
+        + inversion Hp; subst; assumption.
+        + inversion Hp; subst. apply IH0. assumption.
+      - clear IH. revert i. induction (p_subs p) as [|s l0 IH0]; intros i; destruct i; simpl; try constructor.
+        + inversion Hp; subst. apply never_read_close. assumption.
+        + inversion Hp; subst; assumption.
         + inversion Hp; subst; assumption.
         + inversion Hp; subst. apply IH0. assumption. }
     apply H. constructor.
